@@ -62,6 +62,8 @@ var fixed = []sample{
 	{"text/html", "<script>var a = ;</script><p>x"},
 	{"text/css", ""},
 	{"application/json", ""},
+	{"text/css;inline=1", "color : #ff0000 ; margin : 0px 0px"},
+	{"image/svg+xml;inline=1", "<svg><path d=\"M 10 10 L 20 20 z\"/></svg>"},
 }
 
 var short = []sample{
@@ -76,7 +78,18 @@ type chunkReader struct {
 	sent   int
 	short  bool // deliver the bytes up to failAt together with the error
 	calls  int
+	err    error // the error to fail with (default errRead)
 }
+
+func (r *chunkReader) fail() error {
+	if r.err != nil {
+		return r.err
+	}
+	return errRead
+}
+
+// reader errors that merely resemble end-of-file must still be reported
+var errWrappedEOF = fmt.Errorf("connection reset: %w", io.EOF)
 
 func (r *chunkReader) Read(p []byte) (int, error) {
 	r.calls++
@@ -87,7 +100,7 @@ func (r *chunkReader) Read(p []byte) (int, error) {
 		}
 	}
 	if r.failAt >= 0 && r.sent >= r.failAt {
-		return 0, errRead
+		return 0, r.fail()
 	}
 	if len(r.chunks) == 0 {
 		return 0, io.EOF
@@ -103,7 +116,7 @@ func (r *chunkReader) Read(p []byte) (int, error) {
 		r.sent += n
 		r.chunks[0] = c[n:]
 		if r.short || n == 0 {
-			return n, errRead
+			return n, r.fail()
 		}
 		return n, nil
 	}
@@ -395,6 +408,9 @@ func runChunk(m *minify.M, s sample, cs [][]byte, r *vh.Rand) {
 	// 5. ResponseWriter / Middleware
 	for _, variant := range []string{"content-type", "extension", "content-type-params", "writeheader"} {
 		ext := map[string]string{"text/css": ".css", "text/html": ".html", "application/javascript": ".js", "application/json": ".json", "text/xml": ".xml", "image/svg+xml": ".svg"}[s.mt]
+		if ext == "" && variant == "extension" {
+			continue // media types with parameters (inline=1) have no file extension
+		}
 		var rec *httptest.ResponseRecorder
 		ok := withTimeout(func() {
 			rec = httptest.NewRecorder()
@@ -440,7 +456,7 @@ func runChunk(m *minify.M, s sample, cs [][]byte, r *vh.Rand) {
 		if !bytes.Equal(rec.Body.Bytes(), p.out) {
 			viol("chunk:middleware-differs", s, variant, rec.Body.String(), string(p.out), o)
 		}
-		if cl := rec.Header().Get("Content-Length"); cl != "" && cl != fmt.Sprint(rec.Body.Len()) {
+		if cl := rec.Result().Header.Get("Content-Length"); cl != "" && cl != fmt.Sprint(rec.Body.Len()) {
 			viol("chunk:stale-content-length", s, variant, cl, fmt.Sprint(rec.Body.Len()), o)
 		}
 	}
@@ -486,6 +502,36 @@ func runFault(m *minify.M, s sample, r *vh.Rand) {
 				viol("fault:reader-error-not-returned", s, "Reader wrapper", errStr(rerr), "E7", opts)
 			}
 			_ = got
+		}
+	}
+	// reader errors that look like end-of-file (wrapping io.EOF; io.ErrUnexpectedEOF) are still errors
+	for _, k := range []int{0, len(in) / 2, len(in)} {
+		for _, e := range []error{errWrappedEOF, io.ErrUnexpectedEOF} {
+			for _, sh := range []bool{false, true} {
+				opts := map[string]string{"fault": "reader", "k": fmt.Sprint(k), "short": fmt.Sprint(sh), "error": e.Error()}
+				w := &recWriter{}
+				var err error
+				ok := withTimeout(func() {
+					err = m.Minify(s.mt, w, &chunkReader{chunks: [][]byte{append([]byte{}, in...)}, failAt: k, short: sh, err: e})
+				})
+				res.Evaluations++
+				if !ok {
+					viol("fault:reader-failure-blocks", s, "", "", "", opts)
+				} else if err == nil || !errors.Is(err, e) {
+					viol("fault:reader-error-not-returned", s, "plain Minify, error kind "+e.Error(), errStr(err)+" out="+w.accepted.String(), e.Error(), opts)
+				}
+				var rerr error
+				ok = withTimeout(func() {
+					rd := m.Reader(s.mt, &chunkReader{chunks: [][]byte{append([]byte{}, in...)}, failAt: k, short: sh, err: e})
+					_, rerr = io.ReadAll(rd)
+				})
+				res.Evaluations++
+				if !ok {
+					viol("fault:reader-wrapper-blocks", s, "", "", "", opts)
+				} else if rerr == nil || !errors.Is(rerr, e) {
+					viol("fault:reader-error-not-returned", s, "Reader wrapper, error kind "+e.Error(), errStr(rerr), e.Error(), opts)
+				}
+			}
 		}
 	}
 	// writer fails from its k-th call on
@@ -631,6 +677,17 @@ func main() {
 			}
 		}
 	}
+	if *mode == "chunk" || *mode == "all" {
+		hn := 1500
+		if *tier == "thorough" {
+			hn = 30000
+		}
+		runHTTP(r.Fork(), hn, *outDir)
+	}
+	if *mode == "fault" {
+		// minifiers that fail early / after one byte / after reading, through the response writer: Close must return
+		runHTTP(r.Fork(), 400, *outDir)
+	}
 	if *mode == "fault" || *mode == "all" {
 		for _, s := range append(append([]sample{}, fixed...), short...) {
 			runFault(m, s, r)
@@ -650,7 +707,7 @@ func main() {
 	wout.Flush()
 	fin.Close()
 	fout.Close()
-	res.Rule = "C12: all partitions of 8 short inputs (exhaustive, incl. 1-byte chunks) and random partitions (empty and 1-byte chunks included) of fixed samples of all six media types and of benchmark documents, through Minify with a chunked reader, Reader (paced consumer), Writer (chunk by chunk, double Close), Bytes, String and Middleware (Content-Type, Content-Type with parameters, path extension, explicit WriteHeader; Content-Length set by the handler); C14: reader failing after every k bytes (with/without a short final read), writer failing from every k-th call on, plain and through the wrappers with a 5 s watchdog; distinct_nontrivial = distinct (input, partition) pairs with more than one chunk, plus fault positions"
+	res.Rule = "C12: all partitions of 8 short inputs (exhaustive, incl. 1-byte chunks) and random partitions (empty and 1-byte chunks included) of fixed samples of all six media types and of benchmark documents, through Minify with a chunked reader, Reader (paced consumer), Writer (chunk by chunk, double Close), Bytes, String and Middleware (Content-Type, Content-Type with parameters, path extension, explicit WriteHeader; Content-Length set by the handler; random handler scripts over a registry of literal/pattern/failing stub minifiers compared with the Coq model of responseWriter); C14: reader errors wrapping io.EOF / io.ErrUnexpectedEOF; inline CSS/SVG; reader failing after every k bytes (with/without a short final read), writer failing from every k-th call on, plain and through the wrappers with a 5 s watchdog; distinct_nontrivial = distinct (input, partition) pairs with more than one chunk, plus fault positions"
 	res.Samples = []interface{}{map[string]string{"mediatype": fixed[0].mt, "input": fixed[0].in, "partition": "e.g. 3,0,1,17,..."}, map[string]string{"fault": "reader fails after k bytes for every k", "input": fixed[3].in}}
 	if len(res.Violations) > 60 {
 		res.Extra = map[string]interface{}{"violations_total": len(res.Violations)}
